@@ -10,6 +10,7 @@ import (
 	"bufio"
 	"bytes"
 	"fmt"
+	"math/big"
 	"math/rand"
 	"runtime"
 	"sync"
@@ -26,6 +27,77 @@ type shared struct {
 	enc     []byte // a valid compressed encoding
 	encUnc  []byte
 	senc    []byte // a valid scalar encoding
+	// several DIFFERENT shared values of each kind: what one goroutine's call leaves behind in the package must not
+	// leak into another goroutine's call on other arguments
+	dstLongs [][]byte
+	dsts     [][]byte
+	msgs     [][]byte
+	encs     [][]byte // valid encodings of distinct points (compressed and uncompressed)
+	bad      [][]byte // encodings every decoder rejects, each for another reason
+}
+
+// burst: tight loops of calls that OVERWRITE one receiver without reading it (hashing, decoding of valid
+// encodings) over the shared values, all goroutines at once.  Identical events are written once (emit's quiet
+// mode): every call is still compared, through its recorded observation, with the validated call on the same inputs.
+// Each loop changes one pool slot only, so that an unwritten event leaves the recorded history stale in that slot
+// alone -- which the next written event overwrites without reading.
+func burst(m *M, f string, sh *shared, n int) {
+	if f == "" || f == "C08" || f == "C03" {
+		m.quiet = true
+		for i := 0; i < n; i++ {
+			k := m.rng.Intn(1 << 20)
+			switch {
+			case f == "C03" || (f == "" && i%2 == 0):
+				m.EDecodeForm(0, "any", sh.encs[k%len(sh.encs)])
+			case k%2 == 0:
+				m.EEncodeToGroup(0, sh.msgs[k%2], sh.dstLongs[(k>>4)%len(sh.dstLongs)])
+			default:
+				m.EEncodeToGroup(0, sh.msgs[k%2], sh.dsts[(k>>4)%len(sh.dsts)])
+			}
+		}
+		m.quiet = false
+		m.EIdentity(0) // resynchronise the recorded history with the receiver
+	}
+	if f == "" || f == "C09" {
+		m.quiet = true
+		for i := 0; i < n; i++ {
+			k := m.rng.Intn(1 << 20)
+			if k%4 != 0 {
+				m.SHashToScalar(0, sh.msgs[k%2], sh.dstLongs[(k>>4)%len(sh.dstLongs)])
+			} else {
+				m.SHashToScalar(0, sh.msgs[k%2], sh.dsts[(k>>4)%len(sh.dsts)])
+			}
+		}
+		m.quiet = false
+		m.SZero(0)
+	}
+}
+
+func badEncodings(rng *rand.Rand) [][]byte {
+	var xOff []byte // an x that is not the abscissa of a curve point
+	for {
+		x := make([]byte, 32)
+		rng.Read(x)
+		x[0] &= 0x7f
+		xb := new(big.Int).SetBytes(x)
+		g := new(big.Int).Exp(xb, big.NewInt(3), bigP)
+		g.Add(g, big7).Mod(g, bigP)
+		if new(big.Int).ModSqrt(g, bigP) == nil {
+			xOff = x
+			break
+		}
+	}
+	y := make([]byte, 32)
+	rng.Read(y)
+	y[0] &= 0x7f
+	return [][]byte{
+		append([]byte{2}, xOff...), append([]byte{3}, xOff...), // off the curve
+		append([]byte{2}, be32(bigP)...),         // x = p
+		append([]byte{5}, xOff...),               // bad prefix
+		append(append([]byte{4}, xOff...), y...), // uncompressed, off the curve
+		{2, 1, 2, 3},                             // bad length
+		{},
+	}
 }
 
 // focus restricts the concurrent call mix to the actions of one property (set with -focus); empty = all.
@@ -144,6 +216,8 @@ func focusOp(m *M, f string, r int, sh *shared) {
 	}
 }
 
+var burstN = 120
+
 func genC16(m0 *M, rounds int) {
 	for round := 0; round < rounds; round++ {
 		rng := rand.New(rand.NewSource(m0.rng.Int63()))
@@ -171,6 +245,23 @@ func genC16(m0 *M, rounds int) {
 		sh.enc = sh.elems[0].Encode()
 		sh.encUnc = sh.elems[1].EncodeUncompressed()
 		sh.senc = sh.scalars[0].Encode()
+		for i := 0; i < 3; i++ {
+			dl := make([]byte, 256+rng.Intn(60), 400)
+			if i == 2 {
+				dl = make([]byte, len(sh.dstLongs[1]), 400) // same length as another one
+			}
+			rng.Read(dl)
+			sh.dstLongs = append(sh.dstLongs, dl)
+			ds := make([]byte, 1+rng.Intn(60), 128)
+			rng.Read(ds)
+			sh.dsts = append(sh.dsts, ds)
+			ms := make([]byte, rng.Intn(80), 128)
+			rng.Read(ms)
+			sh.msgs = append(sh.msgs, ms)
+			pt := secp256k1.Base().Multiply(secp256k1.NewScalar().SetUInt64(uint64(3 + rng.Intn(100000))))
+			sh.encs = append(sh.encs, pt.Encode(), pt.Double().EncodeUncompressed())
+		}
+		sh.bad = badEncodings(rng)
 
 		var wg sync.WaitGroup
 		start := make(chan struct{})
@@ -208,6 +299,14 @@ func genC16(m0 *M, rounds int) {
 					m.EEncodeUnc(2)
 					m.SSet(0, 1)
 					m.SPow(0, 1)
+				}
+				if focus == "" || focus == "C03" {
+					// every decoder's error paths, taken while the others run: what a rejected input leaves behind in the
+					// package (scratch values, pools) must not reach a later call
+					for j := 0; j < 3; j++ {
+						b := sh.bad[m.rng.Intn(len(sh.bad))]
+						m.EDecodeForm(m.rng.Intn(2), []string{"any", "comp", "unc", "unmarshal"}[m.rng.Intn(4)], b)
+					}
 				}
 				for i := 0; i < 16; i++ {
 					if m.rng.Intn(3) == 0 {
@@ -313,6 +412,9 @@ func genC16(m0 *M, rounds int) {
 						m.SInvert(0)
 					}
 				}
+				if focus == "" || focus == "C03" || focus == "C08" || focus == "C09" {
+					burst(m, focus, sh, burstN)
+				}
 				m.close()
 			}(m)
 		}
@@ -322,6 +424,9 @@ func genC16(m0 *M, rounds int) {
 			m0.openShard()
 		}
 		for g, x := range ms {
+			if g > 0 && g%3 == 0 {
+				m0.openShard() // the histories are independent: spread a large round over several trace files
+			}
 			m0.w.Write(bufs[g].Bytes())
 			m0.inShard += x.events
 			m0.events += x.events
